@@ -67,6 +67,9 @@ impl Thin {
     }
 }
 
+/// Switches the cooperative point `index.after_entry_release` (hook H14) on for this process.
+pub static ENTRY_RELEASE_SEAM: std::sync::atomic::AtomicBool = std::sync::atomic::AtomicBool::new(false);
+
 pub fn mix(a: u64, b: u64) -> u64 {
     let mut z = a ^ b.wrapping_mul(0x9E37_79B9_7F4A_7C15);
     z = z.wrapping_add(0x9E37_79B9_7F4A_7C15);
@@ -154,8 +157,9 @@ impl Controller for Thin {
         None
     }
 
-    fn fail_at(&self, _site: &'static str) -> bool {
-        false
+    fn fail_at(&self, site: &'static str) -> bool {
+        // hook H14: the seam behind every hash-index entry release, for the families that ask for it
+        site == "index.after_entry_release" && ENTRY_RELEASE_SEAM.load(Ordering::Relaxed)
     }
 
     fn event(&self, _kind: &'static str, _a: u64, _b: u64, _c: u64) {}
